@@ -313,7 +313,9 @@ package yang
 // ro is the statement of the property, literally: read-only iff the nearest
 // node on the path (itself included) with an explicit config statement says
 // false, or the node lies in an rpc/action output.
-//@ spec ro(e *Entry) bool = e == nil ? false : (e.Kind == OutputEntry ? true : (e.Config == TSUnset ? ro(e.Parent) : e.Config == TSFalse))
+//@ spec inOut(e *Entry) bool = e == nil ? false : (e.Kind == OutputEntry ? true : inOut(e.Parent))
+//@ spec saysFalse(e *Entry) bool = e == nil ? false : (e.Config == TSUnset ? saysFalse(e.Parent) : e.Config == TSFalse)
+//@ spec ro(e *Entry) bool = saysFalse(e) || inOut(e)
 //
 // Tree assumptions established by the (unverified, reflection-driven) builder:
 // every TriState field holds one of its three values, and parents are acyclic
@@ -328,6 +330,14 @@ package yang
 //@   decreases e == nil ? 0 : rank(e) + 1
 //@   pure
 //@   safe
+//@ func (*Entry).inOutput props C12 C19
+//@   requires forall x *Entry :: ranked(x)
+//@   ensures  result == inOut(e)
+//@   pure
+//@   safe
+//@   loop 1
+//@     invariant inOut(e) == inOut(e0)
+//@     decreases e == nil ? 0 : rank(e) + 1
 //
 // AST assumptions (the AST is built by reflection-driven code that is not
 // verified): a node's parent is a function of the node (nodes are immutable
